@@ -267,7 +267,7 @@ class Gen:
         if k == 3:
             return ["val", ["s", 1 + self.r.below(3)]]
         if k == 4:
-            return ["var", self.r.below(NLOC)]
+            return ["tag", self.t(), ["var", self.r.below(NLOC)]]   # a bare local left of ?? is narrowed to nil by the checker
         if k == 5:
             return ["lt", self.r.below(NLOC), self.r.below(3)]
         return ["tag", self.t(), self.r.choice([["val", "nil"], ["val", ["b", 0]], ["val", ["b", 1]], ["val", ["i", 0]],
@@ -726,7 +726,7 @@ def prog_stream(ctx, elk, model):
                dict(origin=dist, constructs=kdist, impl_outcomes=outcomes, rejected_by_checker=n_reject, model_out_of_fuel=n_fuel,
                     invalid_shapes_skipped=n_invalid, corpus=ncorpus),
                mismatches=n_mismatch, mismatches_in_known_class=n_known_class,
-               crashed_once_but_passed_on_rerun=len(flaky),
+               crashed_once_but_passed_on_rerun=len(flaky), crashed_once_classes={k: list(flaky.values()).count(k) for k in set(flaky.values())},
                oracle2_pairs_checked=o2_checked, oracle2_violations=o2_viol, reject_samples=reject_samples[:3])
 
 
@@ -747,14 +747,21 @@ def table_stream(ctx, model):
         progs.append(("r%05d" % i, Printer(False).program(g.random_program(2 + rng.below(3)))))
     d = os.path.join(ctx.workdir, "tables")
     os.makedirs(d, exist_ok=True)
-    listing = os.path.join(d, "files.txt")
-    with open(listing, "w") as f:
-        for pid_, src in progs:
-            path = os.path.join(d, pid_ + ".elk")
-            with open(path, "w") as g_:
-                g_.write(src)
-            f.write(pid_ + "\t" + path + "\n")
-    rc, out = vlib.sh([h, "-list", listing], env=vlib.elk_env(), timeout=1500)
+    parts = [[] for _ in range(12)]
+    for i, (pid_, src) in enumerate(progs):
+        path = os.path.join(d, pid_ + ".elk")
+        with open(path, "w") as g_:
+            g_.write(src)
+        parts[i % len(parts)].append(pid_ + "\t" + path + "\n")
+
+    def one(k):
+        listing = os.path.join(d, "files%d.txt" % k)
+        with open(listing, "w") as f:
+            f.write("".join(parts[k]))
+        return vlib.sh([h, "-list", listing], env=vlib.elk_env(), timeout=1500)
+    outs = vlib.parallel_map(one, range(len(parts)), workers=12)
+    rc = max(r for r, _ in outs)
+    out = "".join(o for _, o in outs)
     ids, inputs, _ = vlib.parse_case_lines(out)
     if rc != 0 or not ids:
         ctx.broke("correspondence %s: harness exited %d" % (stream, rc), out[-3000:])
